@@ -119,6 +119,15 @@ CHECKS["C16"] = dict(
     note="validate's print-json record is the reference for per-definition statuses. Output order is C05's concern, relations are compared as sets.",
     ref="DESIGN.md §6 P-C16")
 
+CHECKS["C17"] = dict(
+    technique="runtime monitoring: differential monitor against the pre-merged document, over all -i orders and modes",
+    text="Documents are split at random into data + 1-3 parameter files (JSON/YAML, differing sizes); validating with -i in every order, in plain and "
+         "structured mode, with one or two data files and in payload mode must give the verdicts and exit class of validating the pre-merged document; "
+         "rules read keys by name and iterate the merged root map (`this.*`, `[ keys == | in | regex ]`); a deliberately overlapping key (param/param, "
+         "data/param) must produce an error exit without a verdict - not a crash, not a silent choice - in both modes.",
+    note="The reference is the same front end on the pre-merged document.",
+    ref="DESIGN.md §6 P-C17")
+
 PENDING = {}
 
 
